@@ -41,7 +41,7 @@ fn gen(rng: &mut Rng, case: u64) -> Case {
         let mut follow = None;
         let pick_cmd = |rng: &mut Rng, cur: Command| match rng.below(3) { 0 => cur, 1 => Command::new(PositionDerivative::from(cur), rng.moderate(1e3)), _ => gen_cmd(rng) };
         if following && rng.chance(0.25) {
-            follow = Some(match rng.below(6) { 0 => Ev::None, 1 => Ev::Err(7), _ => { let c = pick_cmd(rng, cur); Ev::Some(t, c) } });
+            follow = Some(match rng.below(6) { 0 => Ev::None, 1 => Ev::Err(7), _ => { let c = pick_cmd(rng, cur); Ev::Some(if rng.chance(0.5) { t } else { 0 }, c) } }); // stamp 0 = a clock that never advances
         } else if rng.chance(0.15) {
             set = Some(pick_cmd(rng, cur));
         }
